@@ -288,7 +288,7 @@ func (v *Verifier) propCheck(prop, tier string, seed int, update bool, t0 time.T
 	}
 	resByName := map[string]*ObResult{}
 	for _, r := range results {
-		resByName[r.Name] = r
+		resByName[baselineName(r.Name)] = r
 	}
 	// baseline
 	var bl Baseline
@@ -308,6 +308,7 @@ func (v *Verifier) propCheck(prop, tier string, seed int, update bool, t0 time.T
 		b, _ := json.MarshalIndent(bl, "", " ")
 		os.MkdirAll(filepath.Join(verifRoot, "baseline"), 0o755)
 		os.WriteFile(filepath.Join(verifRoot, "baseline", "obligations.json"), b, 0o644)
+		writeSignatures(v)
 	}
 	type viol struct {
 		name string
@@ -530,6 +531,9 @@ func (v *Verifier) writeEvidence(prop, tier string, seed int, runs map[string]*F
 		"unsigned machine words are modelled exactly (bit-vectors, or integers with explicit wrap variables); values of Go type int (lengths, indices, loop counters, 0/1 flags) are treated as mathematical integers, with a side obligation at every unsigned-to-int conversion",
 		"byte strings of unknown length are an uninterpreted sort with extensionality; SHA-256 is an uninterpreted function of the absorbed string",
 	}
+	if gs := globalsOf(runs); len(gs) > 0 {
+		assumptions = append(assumptions, "package-level variables read in this cone ("+strings.Join(gs, ", ")+") are taken at their initial values; the obligations that justify it are part of this check: frame:global of every function that mentions them (those functions join the cone), globals:no-escape, and (C16) globals:never-assigned; package initialisation order and init() functions are not modelled")
+	}
 	for _, a := range v.specs.Assumes {
 		if strings.HasPrefix(a, "hash_no_x_collision") && !contains(names, "secp256k1.HashToGroup") {
 			continue
@@ -538,6 +542,9 @@ func (v *Verifier) writeEvidence(prop, tier string, seed int, runs map[string]*F
 	}
 	for _, e := range engineErrs {
 		assumptions = append(assumptions, "ENGINE-ERROR in cone: "+e)
+	}
+	for _, rn := range v.renameNotes {
+		assumptions = append(assumptions, "contract adapted to renamed parameters/locals (pure renaming with respect to baseline/signatures.json): "+rn)
 	}
 	ev := map[string]interface{}{
 		"property_id": prop, "tier": tier, "seed": seed, "level": "proof", "wall_s": wall, "violations": nviol,
